@@ -6,15 +6,18 @@ import ApolloModel.Proofs.ParserRecursion9
 import ApolloModel.Proofs.ParserRecursion13
 import ApolloModel.Proofs.ParserRecursion17
 import ApolloModel.Proofs.ParserRecursion20
+import ApolloModel.Proofs.ParserRecursion25
+import ApolloModel.Proofs.ParserRecursion31
 /-
 C04 — Token and recursion limits are enforced exactly.
 
 Lexer model (C03) + parser model (C01).  Proved for all inputs and all limits: the exact shape of
 the limited token stream, the prefix property of the limited tree, the freeze of the error list
 after the token-limit error, the balance and bound of the recursion counter.
-PARTIAL: the cross-run characterisation "recursion-limit error ⟺ nesting depth of the unlimited
-tree > r" and "reached figures = high-water marks" for the compiler wrapper are decided by the
-correspondence/oracle on the implementation (every (n, r) pair per generated document).
+Growth: the cross-run characterisation "recursion-limit error ⟺ nesting depth of the unlimited tree > r"
+(all entry points), the token limit at the parser level, and the closed form of the depth on the syntax tree.
+PARTIAL: "reached figures = high-water marks" for the compiler wrapper is decided by the correspondence/oracle
+on the implementation (every (n, r) pair per generated document).
 -/
 namespace Apollo.C04
 open Apollo.Parse Apollo.Lex Apollo.Rowan
@@ -309,5 +312,119 @@ example : (parse .type none 1 "[[Int]]".toList).recHigh = 2 ∧
     (parse .type none 1 "[[Int]]".toList).errors.map (·.kind) = [.limit] := by decide +kernel
 example : (parse .type none 2 "[[Int]]".toList).recHigh = 2 ∧ (parse .type none 2 "[[Int]]".toList).errors = [] := by
   decide +kernel
+
+/-! ### The token limit at the parser level (growth): every entry point, every recursion limit
+
+The parser pulls its tokens one at a time from the lexer (`Lexer::next` through `Parser::next_token`), so these
+are statements about `parse e (some n) r src` itself, not about `lex`.  What the lexer's tracker counts: every
+item it hands out — tokens of every kind (white space, comments and commas included), lexer errors, and the
+EOF token; `(lex none src).length` is that count for the whole source.  `tokHigh` is the tracker's high-water
+mark: the number of items the parser asked for, the refused one included. -/
+
+/-- With token limit `n`, for every entry point and every recursion limit:
+    (1) the lexer is asked for at most `n + 1` items, and never for more than the source has;
+    (2) when the `n + 1`-th item was asked for (and refused), a limit error is reported and the source really
+        has more than `n` items;
+    (3) a limit error in the list comes from that refusal or from the recursion guard;
+    (4) the lexer stands after `k ≤ n` items of the unlimited stream: the text of the remaining items is the
+        tail of what the parser left unconsumed — at most `n` items went into the tree. -/
+theorem token_limit_parse (e : Entry) (n r : Nat) (src : Parse.Str) :
+    (parse e (some n) r src).tokHigh ≤ n + 1 ∧
+    (parse e (some n) r src).tokHigh ≤ (lex none src).length ∧
+    ((parse e (some n) r src).tokHigh > n →
+      (∃ x, x ∈ (parse e (some n) r src).errors ∧ x.kind = .limit) ∧ (lex none src).length > n) ∧
+    ((∃ x, x ∈ (parse e (some n) r src).errors ∧ x.kind = .limit) →
+      (parse e (some n) r src).tokHigh > n ∨ (parse e (some n) r src).recHigh > r) ∧
+    (∃ k, k ≤ n ∧ k ≤ (lex none src).length ∧ k ≤ (parse e (some n) r src).tokHigh ∧
+      Lex.texts ((lex none src).drop k) <:+ (parse e (some n) r src).leftover) :=
+  Parse.parse_token_limit e n r src
+
+/-- `Parser::parse` (documents) runs the lexer to its end whatever happens on the way (errors, recursion limit):
+    the tracker stops at exactly `min (items of the source) (n + 1)` — the limit is enforced neither earlier
+    nor later. -/
+theorem token_limit_document_high (n r : Nat) (src : Parse.Str) :
+    (parse .document (some n) r src).tokHigh = min (lex none src).length (n + 1) :=
+  Parse.parse_document_tok_high n r src
+
+/-- …so a document parse whose recursion limit is not hit reports a limit error iff the source has more than
+    `n` items.  (The two standalone entry points stop at the first token after the selection set / type and do
+    not lex the rest: for them only the four clauses of `token_limit_parse` hold.) -/
+theorem token_limit_document_iff (n r : Nat) (src : Parse.Str) (hfree : (parse .document (some n) r src).recHigh ≤ r) :
+    (∃ x, x ∈ (parse .document (some n) r src).errors ∧ x.kind = .limit) ↔ (lex none src).length > n :=
+  Parse.parse_document_token_limit_iff n r src hfree
+
+/-- The prefix clause for all three entry points (`finish_standalone` unwraps the temporary root without
+    changing the text), any token limit, any recursion limit. -/
+theorem limited_tree_is_prefix_all_entry_points (e : Entry) (tl : Option Nat) (rl : Nat) (src : Parse.Str) (root : Elem)
+    (h : (parse e tl rl src).outcome = .tree root) (hd : (parse e tl rl src).dropped = false) : root.text <+: src :=
+  Parse.tree_text_prefix_entry e tl rl src root h hd
+
+/-- What can follow the first limit error (either limit), for every entry point and every pair of limits:
+    lexer errors and limit errors only — never a syntax error.  (`push_err` drops everything once
+    `accept_errors` is false, but `next_token` pushes what the lexer reports unconditionally; after the
+    *token*-limit error the lexer is finished and nothing at all follows: `no_error_after_token_limit`.) -/
+theorem errors_after_first_limit (e : Entry) (tl : Option Nat) (r : Nat) (src : Parse.Str) :
+    (¬ ∃ x, x ∈ (parse e tl r src).errors ∧ x.kind = .limit) ∨
+    ∃ pre i extra, (parse e tl r src).errors = pre ++ (⟨i, 0, .limit⟩ : PErr) :: extra ∧
+      (¬ ∃ x, x ∈ pre ∧ x.kind = .limit) ∧ ∀ x ∈ extra, x.kind = .lexer ∨ x.kind = .limit :=
+  Parse.parse_errors_after_limit e tl r src
+
+-- `{a}` is four items (`{`, `a`, `}`, EOF): limit 3 refuses the EOF token, limit 4 does not (kernel-evaluated)
+example : (lex none "{a}".toList).length = 4 := by decide +kernel
+example : (parse .document (some 3) 9 "{a}".toList).tokHigh = 4 ∧
+    (parse .document (some 3) 9 "{a}".toList).errors.map (·.kind) = [.limit] := by decide +kernel
+example : (parse .document (some 4) 9 "{a}".toList).tokHigh = 4 ∧
+    (parse .document (some 4) 9 "{a}".toList).errors = [] := by decide +kernel
+-- white space counts: `{ a }` is six items
+example : (parse .document (some 5) 9 "{ a }".toList).errors.map (·.kind) = [.limit] := by decide +kernel
+-- a standalone entry point does not lex past the token it stops at: `Int ! ! !` as a type, limit 4
+example : (lex none "Int ] ] ]".toList).length = 8 ∧
+    (parse .type (some 4) 9 "Int ] ] ]".toList).tokHigh = 3 ∧
+    (parse .type (some 4) 9 "Int ] ] ]".toList).errors.map (·.kind) = [.syntax] := by decide +kernel
+-- after a recursion-limit error the lexer's errors are still reported (kernel-evaluated; same on the implementation)
+example : (parse .document none 1 "{ a { b } } ~ { c }".toList).errors.map (·.kind) = [.limit, .lexer] := by decide +kernel
+
+/-! ### The closed form of the nesting depth (growth): a syntactic function of the tree
+
+`Parse.gd` is defined by recursion on the syntax tree alone — no parser run, no limit: a `SELECTION_SET` node and a
+`LIST_TYPE` node cost one level, a `LIST_VALUE` node with at least one item costs one level (`[]` costs nothing:
+the guard sits on the items), an `OBJECT_FIELD` node with its `:` costs one level (the guard sits on the field's
+value), every other node costs nothing; the depth of a node is that cost plus the maximum over its children.
+Proofs/ParserRecursion26–31: a judgement "what this function added to the tree has depth `d`, and the tracker's
+high-water mark moved to `max high (current + d)`" for every function of the grammar (all definition parsers
+included), the five guard sites by hand, everything else by the automation of parts 16/19/22. -/
+
+/-- For a source text that parses without error under a recursion limit `R` that is not hit, the tracker's
+    high-water mark IS the nesting depth of the returned tree — every entry point. -/
+theorem rec_high_is_tree_depth (e : Entry) (R : Nat) (src : Parse.Str) (herr : (parse e none R src).errors = [])
+    (hfree : (parse e none R src).recHigh ≤ R) :
+    ∃ root, (parse e none R src).outcome = .tree root ∧ (parse e none R src).recHigh = Parse.gd root :=
+  Parse.parse_depth e R src herr hfree
+
+/-- The property's wording: for a grammatical input (its unlimited parse `R` reports no error), with recursion
+    limit `r` a recursion-limit error is reported if and only if the nesting depth of its syntax tree exceeds
+    `r`, and the tracker stops at exactly `min depth (r + 1)`. -/
+theorem rec_limit_iff_tree_depth (e : Entry) (r R : Nat) (src : Parse.Str) (hrR : r ≤ R)
+    (herr : (parse e none R src).errors = []) (hfree : (parse e none R src).recHigh ≤ R) :
+    ∃ root, (parse e none R src).outcome = .tree root ∧
+      ((∃ x, x ∈ (parse e none r src).errors ∧ x.kind = .limit) ↔ Parse.gd root > r) ∧
+      (parse e none r src).recHigh = min (Parse.gd root) (r + 1) := by
+  obtain ⟨root, h1, h2⟩ := rec_high_is_tree_depth e R src herr hfree
+  obtain ⟨h3, h4⟩ := rec_limit_iff_depth_all_entry_points e r R src hrR hfree
+  exact ⟨root, h1, by rw [← h2]; exact h3, by rw [← h2]; exact h4⟩
+
+/-- depth of the tree of a parse (0 if there is none) — for the examples -/
+def treeDepth (p : PResult) : Nat := match p.outcome with | .tree root => Parse.gd root | _ => 0
+
+-- kernel-evaluated: the tree depth of the examples above, and the cases where the guard sits on the items
+example : treeDepth (parse .document none 9 "query($v: [[Int]] = [[1]]) { a { b } } type T { f(x: [Int]): Int }".toList) = 2 := by
+  decide +kernel
+example : treeDepth (parse .selectionSet none 5 "{ a(x: [[1]]) { b { c } } }".toList) = 3 := by decide +kernel
+example : treeDepth (parse .type none 5 "[[Int]]".toList) = 2 := by decide +kernel
+-- `[]` and `{}` cost nothing; `[[]]` costs one; `{a: {}}` costs one
+example : treeDepth (parse .selectionSet none 5 "{ a(x: [], y: {}) }".toList) = 1 ∧
+    (parse .selectionSet none 5 "{ a(x: [], y: {}) }".toList).recHigh = 1 := by decide +kernel
+example : treeDepth (parse .selectionSet none 5 "{ a(x: [[]], y: {b: {}}) }".toList) = 2 ∧
+    (parse .selectionSet none 5 "{ a(x: [[]], y: {b: {}}) }".toList).recHigh = 2 := by decide +kernel
 
 end Apollo.C04
